@@ -14,6 +14,8 @@
 #include <unistd.h>
 #include <signal.h>
 #include <sys/wait.h>
+#include <sys/resource.h>
+#include <sys/stat.h>
 #include <fstream>
 #include "vf.hpp"
 #include "obs.hpp"
@@ -119,11 +121,11 @@ int main(int argc, char **argv) {
 
     // ================= (a) crash points =================
     auto crash_case = [&](const ex::State &st, int op, int variant, const std::string &rargs) {
-        // variant 0: one flush at the end, SIGKILL ; 1: flush after every step, SIGKILL ; 2: close(), SIGKILL
+        // variant 0: one flush at the end, SIGKILL ; 1: flush after every step, SIGKILL ; 2: close(), SIGKILL ; 3: flush under a file-size limit
         std::string work = vf::scratch_file("crash.h5"), obsf = vf::scratch_file("crash.obs");
         ops::copy_file(E.seed(st.seed).path, work);
         unlink(obsf.c_str());
-        std::string ctx = ex::hist_str(E.alpha, st, op) + (variant == 0 ? " ; flush ; SIGKILL" : variant == 1 ? " (flush after every step) ; SIGKILL" : " ; close ; SIGKILL");
+        std::string ctx = ex::hist_str(E.alpha, st, op) + (variant == 0 ? " ; flush ; SIGKILL" : variant == 1 ? " (flush after every step) ; SIGKILL" : variant == 3 ? " ; flush while the file may not grow ; SIGKILL" : " ; close ; SIGKILL");
         fflush(nullptr);
         pid_t pid = fork();
         if (pid == 0) {
@@ -143,7 +145,18 @@ int main(int argc, char **argv) {
                 }
                 if (code == 0) {
                     std::string text = E.canon(se.file);
-                    if (variant == 2) se.file.close();
+                    if (variant == 3) {
+                        // environment fault at the flush: the file may not grow any more (RLIMIT_FSIZE = its present size, SIGXFSZ ignored,
+                        // as on a full disk).  flush() may fail - then nothing is promised (exit 14); if it returns true the file is complete.
+                        struct stat sb; if (stat(work.c_str(), &sb) != 0) _exit(15);
+                        signal(SIGXFSZ, SIG_IGN);
+                        struct rlimit rl; getrlimit(RLIMIT_FSIZE, &rl); rl.rlim_cur = (rlim_t)sb.st_size; setrlimit(RLIMIT_FSIZE, &rl);
+                        bool ok = false;
+                        try { ok = se.file.flush(); } catch (...) { ok = false; }
+                        if (!ok) _exit(14);
+                        rl.rlim_cur = rl.rlim_max; setrlimit(RLIMIT_FSIZE, &rl);
+                    }
+                    else if (variant == 2) se.file.close();
                     else if (!se.file.flush()) code = 12;
                     if (code == 0) { std::ofstream o(obsf, std::ios::binary); o << text; o.close(); kill(getpid(), SIGKILL); }
                 }
@@ -154,13 +167,15 @@ int main(int argc, char **argv) {
         if (WIFEXITED(stt)) {
             int c = WEXITSTATUS(stt);
             if (c == 10 || c == 11) return false;          // op not enabled / rejected in this state: no crash point
+            if (c == 14) { vf::count("flushes_refused_under_a_file_size_limit"); vf::distinct("outcomes", "flush under a file-size limit|refused"); return true; }   // nothing promised
             if (c == 12) { vf::violation("C11|File::flush|returned false or threw on a writable file", ctx, "REPLAY " + rargs); return true; }
             vf::violation("C11|writer process|unexpected exit", ctx + " exit " + std::to_string(c), "REPLAY " + rargs); return true;
         }
         if (!WIFSIGNALED(stt) || WTERMSIG(stt) != SIGKILL) { vf::violation("C11|writer process|died of signal " + std::to_string(WIFSIGNALED(stt) ? WTERMSIG(stt) : -1), ctx, "REPLAY " + rargs); return true; }
         vf::count("crash_points");
         std::string want = ops::slurp(obsf);
-        const char *vname = variant == 2 ? "close" : "flush";
+        const char *vname = variant == 2 ? "close" : variant == 3 ? "a flush that returned true although the file could not grow" : "flush";
+        if (variant == 3) vf::count("flushes_acknowledged_under_a_file_size_limit");
         for (FileMode m : {FileMode::ReadOnly, FileMode::ReadWrite}) {
             const char *mn = m == FileMode::ReadOnly ? "ReadOnly" : "ReadWrite";
             std::string got, what;
@@ -204,8 +219,8 @@ int main(int argc, char **argv) {
             vf::case_desc("crash points after " + ex::hist_str(E.alpha, st) + " ; <every operation>");
             for (int op = 0; op < (int)E.alpha.size(); op++) {
                 std::vector<int> h = st.hist; h.push_back(op);
-                for (int variant = 0; variant < 3; variant++) {
-                    if (!thorough && variant != (int)((cid + op) % 3)) continue;      // quick: one variant per (state, op), rotating
+                for (int variant = 0; variant < 4; variant++) {
+                    if (!thorough && variant != (int)((cid + op) % 4)) continue;      // quick: one variant per (state, op), rotating
                     std::string rargs = "--seed=" + st.seed + " --level=" + std::to_string(level) + " --history=" + ex::Explorer::hist_arg(h) + " --variant=" + std::to_string(variant);
                     if (!crash_case(st, op, variant, rargs)) break;
                 }
